@@ -328,6 +328,9 @@ def rust_binding(kind, i, text):
         except ValueError:
             return None
         return r and f"let a{i}: {r[0]} = {r[1]};"
+    if kind == "errkind":      # `Extracted.ErrorKind.Strip` -> konst::parsing::ErrorKind::Strip
+        m = re.fullmatch(r"\s*(?:Extracted0?\.)?ErrorKind\.(\w+)\s*", text)
+        return m and f"let a{i}: konst::parsing::ErrorKind = konst::parsing::ErrorKind::{m.group(1)};"
     if kind in ("parser", "parser_any"):
         try:
             return parser_binding(i, text, probe=(kind == "parser"))
